@@ -201,6 +201,80 @@ def run(ctx):
             if n_disc_bad <= 2:
                 rep.violation('oracle', {'property': 'C19', 'kind': 'abort-discards-all-scripts', 'seed': ctx.seed, 'case': cy['id'], 'program': cy['text'],
                                          'actions': cy['actions'], 'difference': bad, 'implementation': (dimpl.get(cy['id']) or '')[:1500], 'line': cy['line']})
+    # control actions issued at an exact instruction boundary of a STEPPING action (assembly step, line step, leave scope)
+    # or of a start in the middle of a history: an accepted stop/abort ends that action with the VM empty and every later
+    # action finds it empty; refused actions change nothing (the history equals the one without the controller)
+    sinj = []
+    sg = ctlgen.CtlGen(ctx.rng.fork('stepinject'))
+    sr = ctx.rng.fork('stepinject-actions')
+    for i in range(300 if quick else 5000):
+        text, slayout = sg.program()
+        outer = ''.join(sr.weighted([('a', 4), ('l', 6), ('v', 3), ('S', 1), ('A', 1), ('T', 1)]) for _ in range(2 + sr.below(6)))
+        k = sr.below(25)
+        inj_acts = sr.choice(['T', 'A', 'T', 'A', 'TA', 'aT', 'lA', 'al', 'S', 'vTS'])
+        c = {'id': 's%d' % i, 'text': text, 'outer': outer, 'k': k, 'inj': inj_acts}
+        c['line'] = 'ctl4 %s %s %s %s %s %s' % (c['id'], hexf(text), hexf(outer), hexf(str(k)), hexf(inj_acts), hexf(','.join(str(x) for x in slayout)))
+        c['plain'] = 'ctl p%d %s %s %s' % (i, hexf(text), hexf(outer), hexf(''))
+        sinj.append(c)
+    simpl, smodel = ctx.run_pair([c['line'] for c in sinj] + [c['plain'] for c in sinj], timeout_ms=15000)
+    n_sinj_bad = n_sinj_fired = n_sinj_nomodel = 0
+    sinj_during = {}
+    for i, c in enumerate(sinj):
+        got = simpl.get(c['id']) or ''
+        plain = simpl.get('p%d' % i) or ''
+        bad = None
+        body, sep, tail = got.rpartition(' | ctl=')
+        steps, tr = ctlgen.parse_out(body) if sep else (None, None)
+        psteps, ptr = ctlgen.parse_out(plain)
+        if steps is None or psteps is None or len(steps) != len(c['outer']) + 1 or '@' not in tail:
+            bad = {'expected': 'one result per action', 'implementation': got[:300], 'without_controller': plain[:300]}
+        else:
+            results, _, at = tail.partition('@')
+            if at == '-':
+                if body != plain:
+                    bad = {'expected': 'the controller never got its turn: the history without controller', 'without_controller': plain[:600]}
+            else:
+                j = int(at)
+                n_sinj_fired += 1
+                sinj_during[c['outer'][j]] = sinj_during.get(c['outer'][j], 0) + 1
+                rs = results.split(',') if results else []
+                for a, r in zip(c['inj'], rs):
+                    if a in 'TA' and r != 'ok':
+                        bad = {'expected': 'stop/abort issued while an action executes is accepted', 'results': results}
+                    if a not in 'TA' and r != 'action_error':
+                        bad = {'expected': 'an executing action issued while another executes is refused', 'results': results}
+                if not bad and steps[:j + 1] != psteps[:j + 1]:
+                    bad = {'expected': 'the actions before the one the controller met are not affected', 'without_controller': plain[:600]}
+                if not bad and not any(a in 'TA' for a in c['inj']):
+                    if body != plain:
+                        bad = {'expected': 'refused actions change nothing: the history without controller', 'without_controller': plain[:600]}
+                elif not bad:
+                    res, st, pos = steps[j + 1]
+                    if st != 'empty' or pos != 'L-:F0' or res not in ('ok', 'runtime_error', 'empty'):
+                        bad = {'expected': 'the %s during which the stop/abort was accepted ends with the VM empty and no script left' % c['outer'][j],
+                               'implementation': '%s:%s:%s' % (res, st, pos)}
+                    for a, (res, st, pos) in zip(c['outer'][j + 1:], steps[j + 2:]):
+                        want = 'action_error' if a in 'TA' else 'empty'
+                        if not bad and (res != want or st != 'empty' or pos != 'L-:F0'):
+                            bad = {'expected': 'action %s on the emptied VM answers %s and leaves it empty' % (a, want), 'implementation': '%s:%s:%s' % (res, st, pos)}
+                    if not bad and tr != 'undef' and ptr is not None and not (ptr.strip('[]') + ',').startswith(tr.strip('[]') + ',') and tr != '[]':
+                        bad = {'expected': 'the trace of the stopped history is a prefix of the trace without controller (%s)' % ptr, 'implementation': tr}
+        if bad:
+            n_sinj_bad += 1
+            if n_sinj_bad <= 2:
+                rep.violation('oracle', {'property': 'C19', 'kind': 'control-injected-into-a-stepping-action', 'seed': ctx.seed, 'case': c['id'], 'program': c['text'],
+                                         'actions': c['outer'], 'before_instruction': c['k'] + 1, 'injected': c['inj'], 'difference': bad,
+                                         'implementation': got[:1500], 'line': c['line']})
+        elif smodel is not None:
+            mgot = smodel.get(c['id']) or ''
+            if mgot == 'nomodel':
+                n_sinj_nomodel += 1       # a start with the controller still waiting: startInjected covers that from a fresh VM only
+            elif mgot != got:
+                n_sinj_bad += 1
+                if n_sinj_bad <= 2:
+                    rep.violation('correspondence', {'property': 'C19', 'kind': 'control-injected-into-a-stepping-action model-vs-implementation', 'seed': ctx.seed,
+                                                     'case': c['id'], 'program': c['text'], 'actions': c['outer'], 'before_instruction': c['k'] + 1,
+                                                     'injected': c['inj'], 'implementation': got[:2000], 'model': mgot[:2000], 'line': c['line']})
     n_or = n_mm = n_undec = 0
     distinct = set()
     samples = []
@@ -243,9 +317,10 @@ def run(ctx):
                                                  'program': c['text'], 'actions': c['actions'], 'implementation': (got or '')[:3000],
                                                  'model': (model.get(c['id']) or '')[:3000], 'line': c['line']})
     cov = {'evaluations': len(cases), 'distinct_nontrivial': len(distinct),
-           'rule': 'programs of 2-8 statements laid out over several lines (two statements on a line, empty lines, nested call/if/for/forEach blocks, an erroring statement) or no script at all; per program one reference run of assembly steps and three random action sequences (length 1-8 over start, stop, abort, assembly step, line step, leave scope); oracle 1: the action table on the reported results and states; oracle 2: every mixed sequence must end each action exactly where single stepping says (first instruction of another line, frame stack below the starting frame, end of script, failing instruction); the Lean model must give the same result, state, next line, frame depth and trace; plus execute(start) runs in which a controller issues stop/abort/start/steps right before a chosen instruction (deterministic, through the guarded hook verif_before_instruction; results, final state, remaining scripts and the trace — exactly one late instruction — compared with the model); plus runs with two real threads (executor inside execute(start) on a script that never ends, or on scripts that are all asleep for hours; controller issuing stop/abort/start after 20-50000 us): both threads must return, the first stop/abort is accepted, a competing start is refused, the VM ends empty; plus programs that have spawned further scripts when they are halted: the history ending in abort and the same history going on with start/steps must leave the same trace (abort discards all scripts); distinct by case line',
+           'rule': 'programs of 2-8 statements laid out over several lines (two statements on a line, empty lines, nested call/if/for/forEach blocks, an erroring statement) or no script at all; per program one reference run of assembly steps and three random action sequences (length 1-8 over start, stop, abort, assembly step, line step, leave scope); oracle 1: the action table on the reported results and states; oracle 2: every mixed sequence must end each action exactly where single stepping says (first instruction of another line, frame stack below the starting frame, end of script, failing instruction); the Lean model must give the same result, state, next line, frame depth and trace; plus execute(start) runs in which a controller issues stop/abort/start/steps right before a chosen instruction (deterministic, through the guarded hook verif_before_instruction; results, final state, remaining scripts and the trace — exactly one late instruction — compared with the model); plus histories of stepping actions (assembly step, line step, leave scope, start, stop, abort) in which a controller issues stop/abort/steps right before a chosen instruction of whichever action is executing then (same hook; oracle: accepted stop/abort ends that action with the VM empty, every later action finds it empty, refused actions leave the history as it is without controller, the trace is a prefix of the trace of that history; the Lean model of the injected stepping actions (Ctl.execI) must give the same history); plus runs with two real threads (executor inside execute(start) on a script that never ends, or on scripts that are all asleep for hours; controller issuing stop/abort/start after 20-50000 us): both threads must return, the first stop/abort is accepted, a competing start is refused, the VM ends empty; plus programs that have spawned further scripts when they are halted: the history ending in abort and the same history going on with start/steps must leave the same trace (abort discards all scripts); distinct by case line',
            'samples': samples, 'oracle_failures': n_or, 'model_mismatches': n_mm, 'undecided_by_reference': n_undec,
-           'actions_exercised': acts_count, 'generator_counts': g.stats, 'threaded_runs': len(threaded), 'threaded_failures': n_thr_bad, 'injected_runs': len(inj), 'injected_runs_where_the_controller_got_its_turn': n_inj_fired, 'injected_failures': n_inj_bad, 'discard_histories': len(disc) // 2, 'discard_histories_where_the_abort_was_accepted': n_disc_halted, 'discard_failures': n_disc_bad}
+           'actions_exercised': acts_count, 'generator_counts': g.stats, 'threaded_runs': len(threaded), 'threaded_failures': n_thr_bad, 'injected_runs': len(inj), 'injected_runs_where_the_controller_got_its_turn': n_inj_fired, 'injected_failures': n_inj_bad, 'discard_histories': len(disc) // 2, 'discard_histories_where_the_abort_was_accepted': n_disc_halted, 'discard_failures': n_disc_bad,
+           'step_injected_histories': len(sinj), 'step_injected_where_the_controller_got_its_turn': n_sinj_fired, 'step_injected_action_met': sinj_during, 'step_injected_failures': n_sinj_bad, 'step_injected_outside_the_model': n_sinj_nomodel}
     return rep.finish(cov, ['interleavings of the two threads are covered exhaustively only by the interleaving model and its theorems; the threaded runs on the implementation sample real schedules (outcome sets, not compared step by step) and cannot exhibit memory-model effects',
                             'the line of an instruction in the model is derived from the statement layout of the generated program',
                             'evaluate_expression and breakpoints are outside the model'])
